@@ -10,7 +10,7 @@ From SPV Require Import Base.Str Model.Leaf Model.LeafSpec Model.ConfigLoop Mode
 (* (#8) None saved for an Optional field whose definition default is not None comes back as the definition default *)
 Theorem C15_loop_refuted :
   ~ (forall t defn v, cfg_type t = true -> defn_typed t defn = true -> has_type v t = true ->
-       value_via_config_gen t defn (encode_cfg_gen v) = Ok v).
+       value_via_config_gen NOENV t defn (encode_cfg_gen v) = Ok v).
 Proof. exact loop_refuted_null. Qed.
 Print Assumptions C15_loop_refuted.
 
@@ -18,77 +18,77 @@ Print Assumptions C15_loop_refuted.
 Theorem C15_loop_refuted_items :
   ~ (forall t defn v, cfg_type t = true -> defn_typed t defn = true -> has_type v t = true ->
        not_null_over_default defn v = true ->
-       value_via_config_gen t defn (encode_cfg_gen v) = Ok v).
+       value_via_config_gen NOENV t defn (encode_cfg_gen v) = Ok v).
 Proof. exact loop_refuted_items. Qed.
 Print Assumptions C15_loop_refuted_items.
 
 Theorem C15_witness_null :
-  value_via_config_gen (TOpt TInt) (Some (VInt 5)) (encode_cfg_gen VNone) = Ok (VInt 5).
+  value_via_config_gen NOENV (TOpt TInt) (Some (VInt 5)) (encode_cfg_gen VNone) = Ok (VInt 5).
 Proof. exact witness_null. Qed.
 Print Assumptions C15_witness_null.
 Theorem C15_witness_list_path :
-  value_via_config_gen (TList TPath) None (encode_cfg_gen (VList [VPath "a"; VPath "b/c"])) = Ok (VList [VStr "a"; VStr "b/c"]).
+  value_via_config_gen NOENV (TList TPath) None (encode_cfg_gen (VList [VPath "a"; VPath "b/c"])) = Ok (VList [VStr "a"; VStr "b/c"]).
 Proof. exact witness_list_path. Qed.
 Print Assumptions C15_witness_list_path.
 Theorem C15_witness_tuple_enum :
-  value_via_config_gen (TTupFix [TEnum ["RED"; "GREEN"]; TInt]) None (encode_cfg_gen (VTup [VEnum "RED"; VInt 1]))
+  value_via_config_gen NOENV (TTupFix [TEnum ["RED"; "GREEN"]; TInt]) None (encode_cfg_gen (VTup [VEnum "RED"; VInt 1]))
   = Ok (VTup [VStr "RED"; VInt 1]).
 Proof. exact witness_tuple_enum. Qed.
 Print Assumptions C15_witness_tuple_enum.
 
 (* ---- exactly what comes back, for every type of the grammar and every well-typed value ---- *)
-Theorem C15_what_comes_back : forall t defn v,
-  cfg_type t = true -> defn_typed t defn = true -> has_type v t = true ->
-  value_via_config_gen t defn (encode_cfg_gen v) = Ok (comes_back_gen defn v).
+Theorem C15_what_comes_back : forall E t defn v,
+  cfg_type t = true -> defn_typed t defn = true -> has_type v t = true -> defn_enum_safe E t defn = true ->
+  value_via_config_gen E t defn (encode_cfg_gen v) = Ok (comes_back_gen defn v).
 Proof. exact leaf_characterised_gen. Qed.
 Print Assumptions C15_what_comes_back.
 
 (* ---- the loop closes under the two boolean side conditions that name the excluded inputs ---- *)
-Theorem C15_loop_partial : forall t defn v,
+Theorem C15_loop_partial : forall E t defn v,
   cfg_type t = true -> defn_typed t defn = true -> has_type v t = true ->
   items_plain t = true -> not_null_over_default defn v = true ->
-  value_via_config_gen t defn (encode_cfg_gen v) = Ok v.
+  value_via_config_gen E t defn (encode_cfg_gen v) = Ok v.
 Proof. exact leaf_partial_gen. Qed.
 Print Assumptions C15_loop_partial.
 
 (* scalars (int, float, str, bool, Enum, Path), any definition default: str / Enum name / path string read from the file
    re-enter through the action's type= converter and postprocess, which invert the encoding *)
-Theorem C15_scalar_loop : forall t defn v,
-  is_item t = true -> has_type v t = true -> value_via_config_gen t defn (encode_cfg_gen v) = Ok v.
+Theorem C15_scalar_loop : forall E t defn v,
+  is_item t = true -> has_type v t = true -> value_via_config_gen E t defn (encode_cfg_gen v) = Ok v.
 Proof. exact scalar_loop_gen. Qed.
 Print Assumptions C15_scalar_loop.
 
 (* tuples are written as lists and come back as tuples (postprocess) *)
-Theorem C15_tuple_loop : forall ts defn vs,
+Theorem C15_tuple_loop : forall E ts defn vs,
   forallb plain_item ts = true -> has_type (VTup vs) (TTupFix ts) = true ->
-  value_via_config_gen (TTupFix ts) defn (encode_cfg_gen (VTup vs)) = Ok (VTup vs).
+  value_via_config_gen E (TTupFix ts) defn (encode_cfg_gen (VTup vs)) = Ok (VTup vs).
 Proof. exact tuple_loop_gen. Qed.
 Print Assumptions C15_tuple_loop.
 
-Theorem C15_optional_none : forall u defn,
+Theorem C15_optional_none : forall E u defn,
   match defn with Some VNone | None => True | _ => False end ->
-  value_via_config_gen (TOpt u) defn (encode_cfg_gen VNone) = Ok VNone.
+  value_via_config_gen E (TOpt u) defn (encode_cfg_gen VNone) = Ok VNone.
 Proof. exact optional_none_gen. Qed.
 Print Assumptions C15_optional_none.
 
-Theorem C15_optional_some : forall u defn v,
-  is_item u = true -> has_type v u = true -> value_via_config_gen (TOpt u) defn (encode_cfg_gen v) = Ok v.
+Theorem C15_optional_some : forall E u defn v,
+  is_item u = true -> has_type v u = true -> value_via_config_gen E (TOpt u) defn (encode_cfg_gen v) = Ok v.
 Proof. exact optional_some_gen. Qed.
 Print Assumptions C15_optional_some.
 
 (* the two defects in general form *)
-Theorem C15_null_falls_back : forall u d,
-  cfg_type (TOpt u) = true -> has_type d (TOpt u) = true -> d <> VNone ->
-  value_via_config_gen (TOpt u) (Some d) (encode_cfg_gen VNone) = Ok d.
+Theorem C15_null_falls_back : forall E u d,
+  cfg_type (TOpt u) = true -> has_type d (TOpt u) = true -> d <> VNone -> defn_enum_safe E (TOpt u) (Some d) = true ->
+  value_via_config_gen E (TOpt u) (Some d) (encode_cfg_gen VNone) = Ok d.
 Proof. exact null_falls_back_gen. Qed.
 Print Assumptions C15_null_falls_back.
 
-Theorem C15_list_items_not_converted : forall u defn vs,
-  value_via_config_gen (TList u) defn (encode_cfg_gen (VList vs)) = Ok (VList (map reload_gen vs)).
+Theorem C15_list_items_not_converted : forall E u defn vs,
+  value_via_config_gen E (TList u) defn (encode_cfg_gen (VList vs)) = Ok (VList (map reload_gen vs)).
 Proof. exact list_comes_back_gen. Qed.
 Print Assumptions C15_list_items_not_converted.
-Theorem C15_tuple_items_not_converted : forall ts defn vs,
-  value_via_config_gen (TTupFix ts) defn (encode_cfg_gen (VTup vs)) = Ok (VTup (map reload_gen vs)).
+Theorem C15_tuple_items_not_converted : forall E ts defn vs,
+  value_via_config_gen E (TTupFix ts) defn (encode_cfg_gen (VTup vs)) = Ok (VTup (map reload_gen vs)).
 Proof. exact tupfix_comes_back_gen. Qed.
 Print Assumptions C15_tuple_items_not_converted.
 Theorem C15_enum_item_is_its_name : forall m, reload_gen (VEnum m) = VStr m.
@@ -99,42 +99,63 @@ Proof. exact reload_path_gen. Qed.
 Print Assumptions C15_path_item_is_a_str.
 
 (* ---- nested dataclasses: the loop composes leaf by leaf over a tree of fields ---- *)
-Theorem C15_tree_compose : forall s x, loops_gen s x -> load_cfg_gen s (Some (to_dict_gen x)) = Ok x.
+Theorem C15_tree_compose : forall E s x, loops_gen E s x -> load_cfg_gen E s (Some (to_dict_gen x)) = Ok x.
 Proof. exact tree_compose_gen. Qed.
 Print Assumptions C15_tree_compose.
 
 (* a member `m: Optional[Class] = None`: None comes back as None; an instance is built from its section like a plain member *)
-Theorem C15_optional_member_none : forall s,
-  member_loads s = true -> load_cfg_gen (SOpt s) (Some (to_dict_gen (ILeaf VNone))) = Ok (ILeaf VNone).
+Theorem C15_optional_member_none : forall E s,
+  member_loads s = true -> enum_defaults_safe E s = true ->
+  load_cfg_gen E (SOpt s) (Some (to_dict_gen (ILeaf VNone))) = Ok (ILeaf VNone).
 Proof. exact optional_member_none_gen. Qed.
 Print Assumptions C15_optional_member_none.
 (* regression witness (repo commit 41db46a): a member that is None whose class has a Tuple field without a default *)
 Theorem C15_witness_absent_member_tuple :
-  load_cfg_gen (SOpt (SNode [("t", SLeaf (TTupFix [TInt; TInt]) None)])) (Some (to_dict_gen (ILeaf VNone))) = Ok (ILeaf VNone).
+  load_cfg_gen NOENV (SOpt (SNode [("t", SLeaf (TTupFix [TInt; TInt]) None)])) (Some (to_dict_gen (ILeaf VNone))) = Ok (ILeaf VNone).
 Proof. exact witness_absent_member_tuple. Qed.
 Print Assumptions C15_witness_absent_member_tuple.
+
+(* Enums with a mixed-in data type.  IntEnum members loop (by name), falsy or not.  On the current tree a member of a (str, Enum) class
+   that is a definition DEFAULT is taken by argparse for a str default: the two ways this ends are kept as witnesses; the theorems
+   above exclude them through `defn_enum_safe` / `enum_defaults_safe` *)
+Theorem C15_witness_int_enum :
+  value_via_config_gen (mkenv [] [(["ZERO"; "LOW"; "HIGH"], "ZERO")]) (TEnum ["ZERO"; "LOW"; "HIGH"]) (Some (VEnum "ZERO")) (encode_cfg_gen (VEnum "HIGH"))
+  = Ok (VEnum "HIGH")
+  /\ load_cfg_gen (mkenv [] [(["ZERO"; "LOW"; "HIGH"], "ZERO")]) (SOpt (SNode [("p", SLeaf (TEnum ["ZERO"; "LOW"; "HIGH"]) (Some (VEnum "ZERO")))]))
+       (Some (to_dict_gen (ILeaf VNone))) = Ok (ILeaf VNone).
+Proof. exact witness_int_enum. Qed.
+Print Assumptions C15_witness_int_enum.
+Theorem C15_witness_str_enum_optional_default :
+  value_via_config_gen TAG_ENV (TOpt (TEnum ["EMPTY"; "A"; "B"])) (Some (VEnum "A")) (encode_cfg_gen VNone) = Err (Exit 2).
+Proof. exact witness_str_enum_optional_default. Qed.
+Print Assumptions C15_witness_str_enum_optional_default.
+Theorem C15_witness_str_enum_falsy_default :
+  load_cfg_gen TAG_ENV (SOpt (SNode [("t", SLeaf (TEnum ["EMPTY"; "A"; "B"]) (Some (VEnum "EMPTY")))])) (Some (to_dict_gen (ILeaf VNone)))
+  = Err (Raise "KeyError").
+Proof. exact witness_str_enum_falsy_default. Qed.
+Print Assumptions C15_witness_str_enum_falsy_default.
 Theorem C15_optional_member_some : forall s xs,
-  load_cfg_gen (SOpt s) (Some (to_dict_gen (INode xs))) = load_cfg_gen s (Some (to_dict_gen (INode xs))).
+  load_cfg_gen NOENV (SOpt s) (Some (to_dict_gen (INode xs))) = load_cfg_gen NOENV s (Some (to_dict_gen (INode xs))).
 Proof. exact optional_member_some_gen. Qed.
 Print Assumptions C15_optional_member_some.
 
 (* whole instance, each of the four file formats *)
-Theorem C15_tree_loop : forall sfx s x,
-  str_in sfx four_suffixes = true -> in_quantifier s x = true -> side_conditions s x = true ->
-  config_loop_gen sfx s x = Ok x.
+Theorem C15_tree_loop : forall E sfx s x,
+  str_in sfx four_suffixes = true -> in_quantifier s x = true -> side_conditions E s x = true ->
+  config_loop_gen E sfx s x = Ok x.
 Proof. exact tree_loop_gen. Qed.
 Print Assumptions C15_tree_loop.
 
-Theorem C15_tree_meets_spec : forall sfx s x,
-  str_in sfx four_suffixes = true -> in_quantifier s x = true -> side_conditions s x = true ->
-  spec_loop s x (config_loop_gen sfx s x) = true.
+Theorem C15_tree_meets_spec : forall E sfx s x,
+  str_in sfx four_suffixes = true -> in_quantifier s x = true -> side_conditions E s x = true ->
+  spec_loop s x (config_loop_gen E sfx s x) = true.
 Proof. exact tree_meets_spec_gen. Qed.
 Print Assumptions C15_tree_meets_spec.
 
 (* every route gives what the plain loop gives: constructor config_path= / --config_path x parse() with the un-rooted file /
    ArgumentParser.add_arguments(cls, dest) with the file keyed by dest (the wiring of the routes is regenerated from the source) *)
-Theorem C15_routes_same : forall via a dest sfx s x,
-  str_in sfx four_suffixes = true -> config_run_gen via a dest sfx s x = config_loop_gen sfx s x.
+Theorem C15_routes_same : forall E via a dest sfx s x,
+  str_in sfx four_suffixes = true -> config_run_gen E via a dest sfx s x = config_loop_gen E sfx s x.
 Proof. exact routes_same_gen. Qed.
 Print Assumptions C15_routes_same.
 
@@ -149,10 +170,10 @@ Example C15_nonvacuous :
   let x := INode [("c", ILeaf (VEnum "GREEN")); ("p", ILeaf (VPath "a/b")); ("t", ILeaf (VTup [VInt 1; VStr "x"]));
                   ("inner", INode [("xs", ILeaf (VList [VFlt false 1 "5"])); ("o", ILeaf (VInt 0))]);
                   ("m", INode [("k", ILeaf (VInt 0))]); ("m2", ILeaf VNone)] in
-  in_quantifier s x = true /\ side_conditions s x = true /\ config_loop_gen ".yaml" s x = Ok x
+  in_quantifier s x = true /\ side_conditions NOENV s x = true /\ config_loop_gen NOENV ".yaml" s x = Ok x
   /\ in_quantifier (SNode [("l", SLeaf (TList TPath) None)]) (INode [("l", ILeaf (VList [VPath "a"]))]) = true
-  /\ side_conditions (SNode [("l", SLeaf (TList TPath) None)]) (INode [("l", ILeaf (VList [VPath "a"]))]) = false
-  /\ config_loop_gen ".json" (SNode [("l", SLeaf (TList TPath) None)]) (INode [("l", ILeaf (VList [VPath "a"]))])
+  /\ side_conditions NOENV (SNode [("l", SLeaf (TList TPath) None)]) (INode [("l", ILeaf (VList [VPath "a"]))]) = false
+  /\ config_loop_gen NOENV ".json" (SNode [("l", SLeaf (TList TPath) None)]) (INode [("l", ILeaf (VList [VPath "a"]))])
      = Ok (INode [("l", ILeaf (VList [VStr "a"]))]).
 Proof. vm_compute. repeat split; reflexivity. Qed.
 Print Assumptions C15_nonvacuous.
